@@ -76,6 +76,16 @@ def check(ctx):
         enc_type = (t.get('gargs') or ['?'])[0]
         m = re.search(r'OrSWotSet<([^>]*)>', enc_type)
         enc_type = 'OrSWotSet<%s>' % m.group(1) if m else enc_type
+    if enc_type is None:
+        # the serializer spelled out (serialize_value / archive root of the set): the type it is instantiated at
+        for b, t in sb.calls():
+            n = cname(t)
+            if n and n.startswith('rkyv::') and last_seg(n) in ('serialize_value', 'serialize_unsized_value', 'resolve_aligned', 'serialize'):
+                for g in (t.get('gargs') or []):
+                    m = re.search(r'OrSWotSet<([^>]*)>', g)
+                    if m:
+                        enc_type = 'OrSWotSet<%s>' % m.group(1)
+                        tb = tb or [(b, t)]
     if decode_type is not None:
         dt = re.sub(r'datacake_crdt::orswot::', '', decode_type)
         et = re.sub(r'datacake_crdt::orswot::', '', enc_type or '?')
@@ -87,6 +97,12 @@ def check(ctx):
         fw = sflow.forward([t['dest']['l']], stop=[0])
         unw = [cname(x) for _b, x in sb.calls() if cname(x) in tables.MAY_PANIC and x['args'] and op_local(x['args'][0]) in fw]
         me = [1 for _b, x in sb.calls() if cname(x) == 'core::result::Result::map_err' and op_local(x['args'][0]) in fw]
+        if not me:
+            # the failure is tested (is_err / match) and answered with an error return
+            tests = [x for _b, x in sb.calls() if cname(x) in ('core::result::Result::is_err', 'core::result::Result::is_ok') and op_local(x['args'][0]) in fw]
+            re_s = ResultEdges(sb, sflow, b)
+            if (tests or re_s.inspected) and err_return_blocks(sb):
+                me = [1]
         ctx.ob('C19.V3', 'on_serialize|error-converted', not unw and bool(me), site(sb, t['cs']),
                'a serialisation failure becomes CorruptedState' if not unw and me else 'serialisation result is unwrapped (%s): a failure kills the keyspace actor' % unw)
     hs = [b for b in facts.bodies.values() if b.kind == 'coroutine' and 'rpc::services::replication_impl::ReplicationService' in b.name
